@@ -219,6 +219,104 @@ def r204(repo, ctx, index):
     ctx.floor('R20.4', n, 4)
 
 
+NDARRAY_ONLY = {'shape', 'T', 'ndim', 'size', 'dtype', 'reshape', 'flatten', 'ravel', 'astype', 'transpose', 'squeeze', 'sum', 'mean', 'max', 'min', 'copy', 'tolist'}
+
+
+def r206(repo, ctx):
+    """the refit functions serve two callers: training (numpy arrays) and the rebuild from a JSON file (nested lists).
+    A value taken from the training-data dictionary is therefore converted through numpy before anything that only an
+    ndarray has is used on it"""
+    n = 0
+    for q, f in repo.functions(SU):
+        if not q.split('.')[-1].startswith('_fit'):
+            continue
+        n += 1
+        # the dictionary of this phase: a local bound to <something>Data[phase] / a parameter named data
+        dnames = set()
+        for s_ in ast.walk(f):
+            if isinstance(s_, ast.Assign) and len(s_.targets) == 1 and isinstance(s_.targets[0], ast.Name):
+                v_ = s_.value
+                src_ = v_.value if isinstance(v_, ast.Subscript) else (v_.func.value if isinstance(v_, ast.Call) and isinstance(v_.func, ast.Attribute) and v_.func.attr == 'get' else None)
+                if src_ is not None and U.chain(src_) and U.chain(src_)[-1].endswith('Data'):
+                    dnames.add(s_.targets[0].id)
+        raw = set()
+        for s_ in ast.walk(f):
+            if isinstance(s_, ast.Assign) and len(s_.targets) == 1:
+                t_, v_ = s_.targets[0], s_.value
+                pairs = [(t_, v_)]
+                if isinstance(t_, ast.Tuple) and isinstance(v_, ast.Tuple) and len(t_.elts) == len(v_.elts):
+                    pairs = list(zip(t_.elts, v_.elts))
+                for a_, b_ in pairs:
+                    if isinstance(a_, ast.Name) and isinstance(b_, ast.Subscript) and isinstance(b_.value, ast.Name) and b_.value.id in dnames \
+                            and isinstance(b_.slice, ast.Constant):
+                        raw.add(a_.id)
+        # a raw name re-bound through numpy is no longer raw
+        rebound = {t.id for s_ in ast.walk(f) if isinstance(s_, ast.Assign) for t in s_.targets if isinstance(t, ast.Name)
+                   and isinstance(s_.value, ast.Call) and (U.call_name(s_.value) or '').startswith('np.') and t.id in raw}
+        bad = []
+        for node in ast.walk(f):
+            if isinstance(node, ast.Attribute) and isinstance(node.value, ast.Name) and node.value.id in raw - rebound and node.attr in NDARRAY_ONLY:
+                bad.append(node)
+            if isinstance(node, ast.Subscript) and isinstance(node.value, ast.Name) and node.value.id in raw - rebound and isinstance(node.slice, ast.Tuple):
+                bad.append(node)
+        for b in bad:
+            ctx.violation('R20.6', SU, q, b, f'{U.src(b)} uses an ndarray-only operation on a value read straight from the training-data dictionary: '
+                          'after a rebuild from the JSON file that value is a nested list, so the saved surrogate cannot be rebuilt',
+                          construct=f'{q}: {U.src(b)}')
+        if not bad:
+            ctx.ok('R20.6', SU, q, f, f'every value read from the training data ({sorted(raw)}) goes through numpy before array-only operations', construct=f'{q}: raw data')
+    ctx.floor('R20.6', n, 3)
+
+
+def r207(repo, ctx):
+    """the public getters of the surrogates take what the underlying thermodynamics takes (a float, a list, a 1-D or 2-D
+    array - the untrained path hands the argument through unchanged): on the trained path the argument is normalised
+    (rebound through _process_x / _process_xT_arrays / np.*) before anything that needs a 2-D array is done with it"""
+    n = 0
+    for q, f in repo.functions(SU):
+        name = q.split('.')[-1]
+        if not (name.startswith('get') or name in ('curvatureFactor', 'impingementFactor')) or '.' not in q:
+            continue
+        pn = [p_ for p_ in U.params(f)[1:3] if p_ in ('x', 'T', 'gExtra')]
+        if not pn:
+            continue
+        n += 1
+        sq = U.seq(f)
+        conv = {}
+        for s_ in ast.walk(f):
+            if isinstance(s_, ast.Assign) and isinstance(s_.value, ast.Call):
+                cn = U.call_name(s_.value) or ''
+                if cn.startswith('np.') or cn.split('.')[-1].startswith('_process'):
+                    for t in U.flat_targets(s_):
+                        if isinstance(t, ast.Name) and t.id in pn:
+                            conv.setdefault(t.id, []).append(sq[id(s_)])
+        bad = []
+        for node in ast.walk(f):
+            raw_attr = isinstance(node, ast.Subscript) and isinstance(node.value, ast.Attribute) and node.value.attr == 'shape' \
+                and isinstance(node.value.value, ast.Name) and node.value.value.id in pn
+            if raw_attr:
+                nm = node.value.value.id
+                # converted on every path before this use?  (conservative: some conversion textually earlier in the same block chain)
+                anc = [c for c in conv.get(nm, []) if c < sq[id(node)]]
+                dominated = False
+                for s_ in ast.walk(f):
+                    if isinstance(s_, ast.Assign) and sq[id(s_)] in anc:
+                        # the conversion dominates the use if it is not nested deeper than the use's own enclosing block
+                        for blk_owner in ast.walk(f):
+                            for attr in ('body', 'orelse'):
+                                b_ = getattr(blk_owner, attr, None)
+                                if isinstance(b_, list) and s_ in b_ and any(any(x is node for x in ast.walk(y)) for y in b_[b_.index(s_) + 1:]):
+                                    dominated = True
+                if not dominated:
+                    bad.append(node)
+        for b in bad:
+            ctx.violation('R20.7', SU, q, b, f'{U.src(b)} is taken of the argument as the caller passed it: a list or a 1-D array of one composition (documented, and accepted '
+                          'while the surrogate is untrained) raises here once the model is trained', construct=f'{q}: {U.src(b)}')
+        if not bad:
+            ctx.ok('R20.7', SU, q, f, f'{name}: no 2-D-only operation on {pn} before it is normalised', construct=f'{q}: argument normalisation')
+    ctx.floor('R20.7', n, 6)
+
+
 def check(repo, ctx, index, purity):
     ctx.explanation = EXPLANATION
     ctx.assumptions += ['exact reproduction of array contents and interpolation at training points are numeric and not decided']
@@ -226,3 +324,5 @@ def check(repo, ctx, index, purity):
     r202(repo, ctx)
     r203(repo, ctx, index)
     r204(repo, ctx, index)
+    r206(repo, ctx)
+    r207(repo, ctx)
